@@ -401,6 +401,12 @@ pub proof fn lemma_blob(l: Layout)
              "final(self).latest_offset == old(self).latest_offset || (!merged && !old(self).is_packed && old(self).latest_field_layout.is_some() && final(self).latest_offset as int == align_up(old(self).latest_offset as int, layout_align1(old(self).latest_field_layout.unwrap())))",
              "merged ==> old(self).last_field_was_bitfield && final(self).latest_offset == old(self).latest_offset",
              "(old(self).is_packed || old(self).latest_field_layout.is_none()) ==> (!merged && final(self).latest_offset == old(self).latest_offset)",
+             # exactly when the new field is merged into the slack of the preceding bit-field unit, and otherwise the running offset
+             # IS rounded up to the previous field's alignment (what repr(C) does before the next field is placed)
+             "!old(self).is_packed && old(self).latest_field_layout.is_some() ==> merged == (old(self).last_field_was_bitfield "
+             "&& new_field_layout.align <= old(self).latest_field_layout.unwrap().size % layout_align1(old(self).latest_field_layout.unwrap()) as usize "
+             "&& new_field_layout.size <= old(self).latest_field_layout.unwrap().size % layout_align1(old(self).latest_field_layout.unwrap()) as usize)",
+             "!merged && !old(self).is_packed && old(self).latest_field_layout.is_some() ==> final(self).latest_offset as int == align_up(old(self).latest_offset as int, layout_align1(old(self).latest_field_layout.unwrap()))",
          ]},
         {"kind": "fn", "file": SL, "name": "padding_field", **TR, "ret": "r",
          "subst": [
@@ -475,8 +481,14 @@ pub proof fn lemma_blob(l: Layout)
              "(old(self).is_packed || old(self).comp.spec_is_union()) ==> r.is_none()",
              # PLACEMENT THEOREM (C02) on the whole region (F4 repaired by /repo commit 84ad6da6)
              "old(self).place_region(field_layout, field_offset) ==> (place_after(old(self).latest_offset as int, r, field_layout.align as int) == field_offset.unwrap() / 8 && final(self).latest_offset == field_offset.unwrap() / 8 + field_layout.size)",
+             # a member clang reports no offset for (an anonymous struct/union): rustc places it at the next multiple of its alignment
+             # after the previous field (repr(C)), and so must the running offset - unless it is merged into the slack of a bit-field unit
+             "field_offset.is_none() && !old(self).is_packed && !old(self).comp.spec_is_union() && field_layout.align > 0 && old(self).latest_field_layout.is_some() "
+             "&& !(old(self).last_field_was_bitfield && field_layout.align <= old(self).latest_field_layout.unwrap().size % layout_align1(old(self).latest_field_layout.unwrap()) as usize "
+             "&& field_layout.size <= old(self).latest_field_layout.unwrap().size % layout_align1(old(self).latest_field_layout.unwrap()) as usize) "
+             "==> final(self).latest_offset as int == align_up(align_up(old(self).latest_offset as int, layout_align1(old(self).latest_field_layout.unwrap())), field_layout.align as int) + field_layout.size",
          ],
-         "proof_start": "reveal_with_fuel(is_pow2, 5); if self.place_region(field_layout, field_offset) { lemma_place(self.latest_offset as int, field_offset.unwrap() as int / 8, field_layout.align as int, self.ctx.spec_options().force_explicit_padding); if self.latest_field_layout.is_some() { lemma_align_up(self.latest_offset as int, layout_align1(self.latest_field_layout.unwrap())); } }"},
+         "proof_start": "reveal_with_fuel(is_pow2, 5); if self.latest_field_layout.is_some() { lemma_align_up(self.latest_offset as int, layout_align1(self.latest_field_layout.unwrap())); if field_layout.align > 0 { lemma_align_up(align_up(self.latest_offset as int, layout_align1(self.latest_field_layout.unwrap())), field_layout.align as int); } } if self.place_region(field_layout, field_offset) { lemma_place(self.latest_offset as int, field_offset.unwrap() as int / 8, field_layout.align as int, self.ctx.spec_options().force_explicit_padding); if self.latest_field_layout.is_some() { lemma_align_up(self.latest_offset as int, layout_align1(self.latest_field_layout.unwrap())); } }"},
         {"kind": "fn", "file": SL, "name": "add_tail_padding", **TR, "ret": "r",
          "subst": [("Option<proc_macro2::TokenStream>", "Option<Tok>", 1, "R4")],
          "requires": ["old(self).inv()", "old(self).small()", "valid_layout(comp_layout)"],
